@@ -12,7 +12,7 @@
    NewTaskInfo(last delivered pod version). *)
 From stdpp Require Import gmap.
 From Coq Require Import ZArith.
-From V Require Import Base.Res Sched.LedgerModel Sched.LedgerInv C08.Model C08.Laws C08.Lemmas C08.Lemmas2 C08.Prio C08.Refuted.
+From V Require Import Base.Res Sched.LedgerModel Sched.LedgerInv C08.Model C08.Laws C08.Lemmas C08.Lemmas2 C08.Lemmas3 C08.Prio C08.Refuted.
 Open Scope Z_scope.
 
 (* --- the two task-level operations every pod handler is made of --- *)
@@ -191,25 +191,82 @@ Theorem C08_failures_repaired : forall eps h,
 Proof. exact failures_repaired. Qed.
 Print Assumptions C08_failures_repaired.
 
-(* --- Snapshot(): a function of the cache state; which entries it clones, which it skips --- *)
-Theorem C08_snapshot_selection : forall eps c,
-  let s := take_snapshot eps c in
-  (forall n, s_nodes s !! n =
-     match c_nodes c !! n with
-     | Some N => if n_has_node N then Some (clone_node eps (clone_alloc c n N) N) else None
-     | None => None end) /\
-  (forall j, s_jobs s !! j =
-     match c_jobs c !! j with
-     | Some cj => if in_snapshot c cj then Some (upd_job cj (clone_job (c_heap c) (cj_job cj))) else None
-     | None => None end) /\
-  s_queues s = c_queues c /\ s_nodelist s = c_nodelist c.
-Proof. exact snapshot_selection. Qed.
-Print Assumptions C08_snapshot_selection.
+(* --- Snapshot() against an independent specification (audit W1; the former
+       C08_snapshot_selection was [take_snapshot] unfolded and is now the lemma
+       Lemmas2.snapshot_selection) --- *)
+Theorem C08_snapshot_meets_spec : forall eps c, Rep c -> SnapSpec c (take_snapshot eps c).
+Proof. exact take_snapshot_spec. Qed.
+Print Assumptions C08_snapshot_meets_spec.
+
+Theorem C08_clone_node_is_set_node : forall eps T n ni alloc,
+  NodeRep T n ni -> (forall i t, T !! i = Some t -> t_id t = i) ->
+  (forall i t, n_tasks ni !! i = Some t -> t_status t <> Binding) ->
+  clone_node eps alloc ni = node_set ni (mkNodeObj (n_id ni) alloc).
+Proof. exact clone_node_is_node_set. Qed.
+Print Assumptions C08_clone_node_is_set_node.
 
 Theorem C08_clone_job_keeps_ledger : forall c j cj,
   Rep c -> c_jobs c !! j = Some cj -> JobRep (c_heap c) j (clone_job (c_heap c) (cj_job cj)).
 Proof. exact clone_job_rep. Qed.
 Print Assumptions C08_clone_job_keeps_ledger.
+
+(* --- what an accepted bind / eviction DOES (audit W8) --- *)
+Theorem C08_bind_accepted : forall eps c jid tid nid ok,
+  Rep c -> snd (bind_task eps c jid tid nid ok) = RDone ->
+  let c' := fst (bind_task eps c jid tid nid ok) in
+  exists st ni', stored_task c (Some jid) tid = Some st /\
+    let t' := set_node (set_status st Binding) (Some nid) in
+    c_heap c' !! tid = Some t' /\ c_nodes c' !! nid = Some ni' /\ n_tasks ni' !! tid = Some t' /\
+    (if ok then c_errq c' = c_errq c else (jid, tid) ∈ c_errq c').
+Proof. exact bind_task_done. Qed.
+Print Assumptions C08_bind_accepted.
+
+Theorem C08_evict_accepted : forall eps c jid tid ok,
+  Rep c -> snd (evict_task eps c jid tid ok) = RDone ->
+  let c' := fst (evict_task eps c jid tid ok) in
+  exists st n ni', stored_task c (Some jid) tid = Some st /\ t_node st = Some n /\
+    let t' := set_status st Releasing in
+    c_heap c' !! tid = Some t' /\ c_nodes c' !! n = Some ni' /\ n_tasks ni' !! tid = Some t' /\
+    (if ok then c_errq c' = c_errq c else (jid, tid) ∈ c_errq c').
+Proof. exact evict_task_done. Qed.
+Print Assumptions C08_evict_accepted.
+
+(* --- repair under ANY mix of successful / refused / failed binds and evictions, both
+       directions (audit W2) --- *)
+Theorem C08_step_keeps_cover : forall eps c e, Inv2 eps c -> Cover c -> step_ok2 e -> Cover (handle eps c e).
+Proof. exact step_cover. Qed.
+Print Assumptions C08_step_keeps_cover.
+
+Theorem C08_mixed_failures_repaired : forall eps h,
+  hist_ok4 eps empty_cache h ->
+  let c := run eps empty_cache (h ++ [EDrainResync]) in
+  let A := await_run eps empty_cache ∅ h in
+  Inv2 eps c /\
+  (forall i t, c_heap c !! i = Some t -> synced_at eps c i t \/ i ∈ A) /\
+  (forall i p, c_store c !! i = Some p -> i ∈ c_gone c \/ is_Some (c_heap c !! i)).
+Proof. exact mixed_failures_repaired. Qed.
+Print Assumptions C08_mixed_failures_repaired.
+
+(* --- convergence over the WHOLE alphabet, at quiescence (audit W3; the headline clause) --- *)
+Theorem C08_converges_whole_alphabet : forall eps h h',
+  hist_ok4 eps empty_cache h -> hist_ok4 eps empty_cache h' -> quiescent eps h -> quiescent eps h' ->
+  o_pods (final_objects h) = o_pods (final_objects h') ->
+  o_nodes (final_objects h) = o_nodes (final_objects h') ->
+  let c := run eps empty_cache (h ++ [EDrainResync]) in
+  let c' := run eps empty_cache (h' ++ [EDrainResync]) in
+  c_heap c = c_heap c' /\
+  (forall j cj, c_jobs c !! j = Some cj ->
+     (j_tasks (cj_job cj) <> ∅ -> is_Some (c_jobs c' !! j)) /\
+     (forall cj', c_jobs c' !! j = Some cj' -> job_equiv cj cj')) /\
+  (forall n N, c_nodes c !! n = Some N ->
+     (n_tasks N <> ∅ \/ n_has_node N = true -> is_Some (c_nodes c' !! n)) /\
+     (forall N', c_nodes c' !! n = Some N' ->
+        n_tasks N = n_tasks N' /\ n_has_node N = n_has_node N' /\
+        (n_has_node N = true ->
+         res_eqv (n_alloc N) (n_alloc N') /\ res_eqv (n_idle N) (n_idle N') /\ res_eqv (n_used N) (n_used N') /\
+         res_eqv (n_releasing N) (n_releasing N') /\ res_eqv (n_pipelined N) (n_pipelined N')))).
+Proof. exact converges_whole_alphabet. Qed.
+Print Assumptions C08_converges_whole_alphabet.
 
 (* --- the view is a function of the held tasks and the node objects --- *)
 Theorem C08_view_determined : forall c c',
@@ -315,3 +372,32 @@ Example C08_fail_history_effect :
   (t_status <$> c_heap (run eps0 empty_cache (fail_history ++ [EDrainResync])) !! 1%positive) = Some Pending.
 Proof. exact fail_history_effect. Qed.
 Print Assumptions C08_fail_history_effect.
+
+(* audit W1: the consistency law needs the copies held by the snapshot's nodes *)
+Example C08_snapshot_law_needs_node_copies :
+  law_snapshot c_w1 (take_snapshot eps0 c_w1) = false /\
+  law_snapshot c_w1 (full_snapshot eps0 c_w1) = true /\
+  law_snapshot (run eps0 empty_cache fail_history) (full_snapshot eps0 (run eps0 empty_cache fail_history)) = true.
+Proof. exact snapshot_law_needs_node_copies. Qed.
+Print Assumptions C08_snapshot_law_needs_node_copies.
+
+(* audit W2 / W13: non-vacuity with mixed outcomes and genuinely different orders *)
+Example C08_mixed_history_ok : hist_ok4 eps0 empty_cache mixed_history.
+Proof. exact mixed_history_ok. Qed.
+Print Assumptions C08_mixed_history_ok.
+
+Example C08_mixed_history_effect :
+  let c := run eps0 empty_cache (mixed_history ++ [EDrainResync]) in
+  (t_status <$> c_heap c !! 1%positive) = Some Binding /\
+  (t_status <$> c_heap c !! 2%positive) = Some Pending /\
+  await_run eps0 empty_cache ∅ mixed_history = {[1%positive]}.
+Proof. exact mixed_history_effect. Qed.
+Print Assumptions C08_mixed_history_effect.
+
+Example C08_conv_hyps :
+  hist_ok4 eps0 empty_cache conv_h1 /\ hist_ok4 eps0 empty_cache conv_h2 /\
+  quiescent eps0 conv_h1 /\ quiescent eps0 conv_h2 /\
+  o_pods (final_objects conv_h1) = o_pods (final_objects conv_h2) /\
+  o_nodes (final_objects conv_h1) = o_nodes (final_objects conv_h2).
+Proof. exact conv_hyps. Qed.
+Print Assumptions C08_conv_hyps.
